@@ -9,6 +9,8 @@ pub enum Op {
     U32,
     U64,
     Fill(usize),
+    /// fill_bytes(n) into a destination that starts `off` bytes after an 8-byte boundary
+    FillAt(usize, usize),
     Jump,
     LongJump,
     /// jitter
@@ -18,11 +20,19 @@ pub enum Op {
 }
 
 impl Op {
+    /// the operation as the stream bookkeeping sees it (alignment of the destination is not part of it)
+    pub fn norm(&self) -> Op {
+        match self {
+            Op::FillAt(n, _) => Op::Fill(*n),
+            o => o.clone(),
+        }
+    }
     pub fn to_json(&self) -> Value {
         match self {
             Op::U32 => json!("next_u32"),
             Op::U64 => json!("next_u64"),
             Op::Fill(n) => json!({"fill_bytes": n}),
+            Op::FillAt(n, off) => json!({"fill_bytes": n, "misalign": off}),
             Op::Jump => json!("jump"),
             Op::LongJump => json!("long_jump"),
             Op::TimerStats(v) => json!({"timer_stats": v}),
@@ -43,6 +53,9 @@ impl Op {
         }
         let o = v.as_object()?;
         if let Some(n) = o.get("fill_bytes") {
+            if let Some(off) = o.get("misalign") {
+                return Some(Op::FillAt(n.as_u64()? as usize, off.as_u64()? as usize));
+            }
             return Some(Op::Fill(n.as_u64()? as usize));
         }
         if let Some(n) = o.get("timer_stats") {
@@ -58,6 +71,7 @@ impl Op {
             Op::U32 => "u32".into(),
             Op::U64 => "u64".into(),
             Op::Fill(n) => format!("fill{}", n),
+            Op::FillAt(n, off) => format!("fill{}@{}", n, off),
             Op::Jump => "jump".into(),
             Op::LongJump => "ljump".into(),
             Op::TimerStats(v) => format!("stats{}", *v as u8),
@@ -174,6 +188,18 @@ pub fn apply(g: &mut Box<dyn Gen>, op: &Op) -> Obs {
             let mut b = vec![0xEEu8; *n];
             g.fill_bytes(&mut b);
             Obs::Bytes(b)
+        }
+        Op::FillAt(n, off) => {
+            // an 8-byte aligned backing store; the destination starts `off` bytes into it
+            let mut backing = vec![0xEEEE_EEEE_EEEE_EEEEu64; (*n + *off) / 8 + 2];
+            let bytes: &mut [u8] = unsafe { std::slice::from_raw_parts_mut(backing.as_mut_ptr() as *mut u8, backing.len() * 8) };
+            g.fill_bytes(&mut bytes[*off..*off + *n]);
+            let out = bytes[*off..*off + *n].to_vec();
+            // nothing outside the destination may be written
+            if bytes[..*off].iter().any(|&b| b != 0xEE) || bytes[*off + *n..].iter().any(|&b| b != 0xEE) {
+                panic!("fill_bytes wrote outside its destination");
+            }
+            Obs::Bytes(out)
         }
         Op::Jump => {
             g.jump();
